@@ -20,7 +20,7 @@ REQUIRED = {"non_amplification": {"quick": 300, "thorough": 2000}, "strict_decay
 ASSUMPTIONS = ["applicability (Re sigma <= 0 on all grid modes) is classified with the model's symbol, amplifying configurations are counted outside_precondition"]
 AMBIENT = True            # thorough tier: the repository's own test-suite runs under this property's general monitor (rv/ambient.py)
 REQUIRED_AMBIENT = {'ambient_non_amplification': 60}
-TIMEOUT = {"quick": 900, "thorough": 3000}
+TIMEOUT = {"quick": 2400, "thorough": 7200}
 EPS = np.finfo(float).eps
 LIN = [n for n, s in zoo.SPECS.items() if s["linear"] and n != "stepper.Wave"]
 
